@@ -1,0 +1,16 @@
+//go:build verif
+
+// Contracts for package truncate (read by /verif/gocv; comment-only effect with the verif tag off).
+// C19: the truncate filter never panics on any token stream and any byte strings, for a
+// non-negative length (a negative length is a configuration error: TruncateRunes would be asked to
+// remove more runes than a term has).
+
+package truncate
+
+//@ func TruncateTokenFilter.Filter
+//@   props C19
+//@   mode int
+//@   requires s != nil && s.length >= 0 && forall(k, 0, len(input), input[k] != nil)
+//@   modifies fields(analysis.Token)
+//@   ensures result == input
+//@   loop 0: invariant forall(k, 0, len(input), input[k] != nil) && s.length >= 0
